@@ -326,6 +326,31 @@ fn gen_c02(tier: &str, rng: &mut Rng) -> Vec<Case> {
         let id = cases.len();
         cases.push(mk_case(id, 0, cfg, width, html.into_bytes(), Some(0), g(""), "narrow_prefix"));
     }
+    // preformatted lines whose white space ends at (or next to) the right margin, then a tab and a
+    // word about as long as the width: pending white space is carried over to the next line
+    let nm = if tier == "thorough" { 40000 } else { 3000 };
+    for _ in 0..nm {
+        let width = rng.range(2, 24);
+        let a = rng.range(0, width.min(9));
+        let sp = (width - a.min(width)).saturating_sub(rng.below(3)) + rng.below(2);
+        let head: String = "abcdefghi".chars().take(a).collect();
+        let tabs = *rng.pick(&["\t", "\t", "", "\t\t", " \t"]);
+        let wl = rng.range(1, width + 2);
+        let word: String = "0123456789ABCDEFGHIJKLMNOPQ".chars().take(wl).collect();
+        let tail = *rng.pick(&["\nend", " x\nend", "", "\t", "  "]);
+        let body = format!("{}{}{}{}{}", head, " ".repeat(sp), tabs, word, tail);
+        let html = match rng.below(5) {
+            0 => format!("<ul><li><pre>{}</pre></li></ul>", body),
+            1 => format!("<blockquote><pre>{}</pre></blockquote>", body),
+            2 => format!("<p style=\"white-space:pre-wrap\">{}</p>", body),
+            _ => format!("<pre>{}</pre>", body),
+        };
+        let mut cfg = Cfg { deco: *rng.pick(&[0u8, 1, 2, 3]), ..Default::default() };
+        cfg.doc_css = true;
+        cfg.pad = rng.chance(1, 5);
+        let id = cases.len();
+        cases.push(mk_case(id, 0, cfg, width + rng.below(4), html.into_bytes(), Some(0), g(""), "pre_margin"));
+    }
     cases
 }
 fn check_c02(cases: &[Case], results: &[Option<RunResult>]) -> Vec<Violation> {
